@@ -6,7 +6,7 @@
 (*                                                                             *)
 (* A request r is described by what an outside observer knows about how it was *)
 (* produced:                                                                   *)
-(*   op      "update" | "axfr"                                                 *)
+(*   op      "update" | "axfr" | "ixfr" (a zone transfer, too: RFC 1995)       *)
 (*   signed  the message ends with a TSIG record                               *)
 (*   keyName "k1" | "k2" (configured keys) | "kx" (not configured)             *)
 (*   macKey  the secret the MAC was computed with: "k1" | "k2" | "kbad"        *)
@@ -14,7 +14,8 @@
 (*   macLen  "full" | "trunc" (a proper prefix of the genuine MAC)             *)
 (*   dt      TSIG time minus the server clock, in seconds                      *)
 (*   tamper  what was altered after signing ("none", or a region name)         *)
-(* and the zone policy p = [allowUpdate, axfr ("deny"|"all"|"signed"), fudge]. *)
+(* and the zone policy p = [allowUpdate, axfr ("deny"|"all"|"signed"), fudge,  *)
+(* store ("sqlite" | "memory": which zone handler serves the zone)].           *)
 EXTENDS Naturals, Integers, Sequences, FiniteSets
 
 Configured == {"k1", "k2"}
@@ -53,7 +54,8 @@ MayEffect(r, p) ==
 \* know when a signed reply has to be checked) -- the property itself is one-directional
 Honoured(r, p) ==
     /\ Authentic(r, p) /\ r.tamper = "none"
-    /\ IF r.op = "update" THEN p.allowUpdate ELSE p.axfr \in {"all", "signed"}
+    /\ IF r.op = "update" THEN p.allowUpdate /\ p.store = "sqlite"
+       ELSE r.op = "axfr" /\ p.store = "sqlite" /\ p.axfr \in {"all", "signed"}
 
 \* C13_EffectOnlyIfValid / C13_Unchanged
 C13_EffectOk(r, p, effect) == effect => MayEffect(r, p)
@@ -63,7 +65,7 @@ C13_EffectOk(r, p, effect) == effect => MayEffect(r, p)
 (* the reply is accepted.  o = [signed, verifies, modifiedTried, modifiedAccepted] *)
 \* (a transfer under the allow-all policy is outside the property: the server need not look at
 \* the signature at all)
-ReplyMustBeSigned(r, p) == r.signed /\ Authentic(r, p) /\ ~(r.op = "axfr" /\ p.axfr = "all")
+ReplyMustBeSigned(r, p) == r.signed /\ Authentic(r, p) /\ ~(r.op \in {"axfr", "ixfr"} /\ p.axfr = "all")
 C13_ReplyOk(r, p, effect, o) ==
     (effect /\ ReplyMustBeSigned(r, p)) => (o.signed /\ o.verifies /\ o.modifiedAccepted = 0)
 =============================================================================
